@@ -633,7 +633,7 @@ func planC16(t *testing.T, tier string, seed uint64) ([]RunSpec, error) {
 	var plan []RunSpec
 	n := 1600
 	if !quick(tier) {
-		n = 80000
+		n = 600000
 	}
 	for i := 0; i < n; i++ {
 		s := RunSpec{Property: "C16", Workload: "c16/history", Params: map[string]int{"len": []int{3, 6, 12, 30}[i%4], "pfault": []int{0, 10, 10, 25}[(i/4)%4]}}
@@ -648,7 +648,7 @@ func planC16(t *testing.T, tier string, seed uint64) ([]RunSpec, error) {
 	// directed histories: the spawning entry points over and over (cores finishing while others are spawned)
 	nd := 400
 	if !quick(tier) {
-		nd = 40000
+		nd = 200000
 	}
 	for i := 0; i < nd; i++ {
 		s := RunSpec{Property: "C16", Workload: "c16/history-fanout", Params: map[string]int{"len": 4, "pfault": 0, "force_op": []int{11, 15}[i%2]}}
